@@ -48,6 +48,7 @@ let handle (f : string array) : string =
     if conv v then
       (match key v with ((p, s), t) -> "conv\t" ^ show_pkey p ^ "\t" ^ show_opt s ^ "\t" ^ show_opt t)
     else "nonconv"
+  | "accepts" -> if accepts (dec_str f.(1)) then "1" else "0"
   | "keycmp" -> show_cmp (Ok (key_compare (key (dec_str f.(1))) (key (dec_str f.(2)))))
   | "split" ->
     (match split_version (dec_str f.(1)) with
